@@ -2,6 +2,7 @@
 from __future__ import annotations
 
 import io
+import os
 import random
 import re
 
@@ -30,9 +31,10 @@ REQUIRED = {"reporter.tables_match_census": {"quick": 800, "thorough": 40000},
             "collector.text_matches_census": {"quick": 4000, "thorough": 200000},
             "lists.failing_and_errored": {"quick": 1600, "thorough": 80000},
             "conservation.sum_equals_elements": {"quick": 3000, "thorough": 150000},
-            "collector.delegation_form_counts_match_census": {"quick": 800, "thorough": 40000}}
+            "collector.delegation_form_counts_match_census": {"quick": 800, "thorough": 40000},
+            "process.summary_counts_scenarios_as_the_model": {"quick": 8, "thorough": 150}}
 REQUIRED_SEEN = {"scenario_status_counted": ["passed", "failed", "error", "hook_error", "skipped", "untested"],
-                 "format_printed": FORMATS, "feature_titles": ["unique", "duplicate"],
+                 "format_printed": FORMATS, "feature_titles": ["unique", "duplicate"], "scenario_title_class": ["format_metacharacters"], "junit_reporting": ["command_line", "configuration_file", "off"],
                  "interim_summary": ["printed_from_after_feature"]}
 NSHARDS = {"quick": 16, "thorough": 16}
 KINDS = ["feature", "rule", "scenario", "step"]
@@ -280,6 +282,18 @@ def run(spec, mon):
     for i in range(n):
         gen = {"outcomes": OUTCOMES + ["abort"], "weights": {"abort": 0.3}} if i % 6 == 0 else {}
         case = RB.gen_case(rng, gen=gen, p_stop=0.3, p_dry=0.12, p_user_skip=0.1, p_names=0.1)
+        if i % 4 == 1:
+            # scenario titles with characters that mean something to %-formatting / str.format / templates: a title is text
+            def decorate(c):
+                for it in c["items"]:
+                    if it["kind"] == "rule":
+                        decorate(it)
+                    else:
+                        it["name"] = it["name"] + rng.choice([" {user}", " {0}", " {{x}}", " 100%", " %s and %d", " {", " }", " $x ${y}"])
+            for f in case["program"]["features"]:
+                decorate(f)
+                f.pop("_text", None)
+            mon.seen("scenario_title_class", "format_metacharacters")
         fmt = FORMATS[i % len(FORMATS)]
         args = case["args"] + ["-D", "behave.reporter.summary.output_format=%s" % fmt]
         kw = {}
@@ -331,6 +345,47 @@ def run(spec, mon):
         RB.check_identity(mon, obs, case, prefix="census")
         if i == 0:
             mon.sample({"features": RB.case_texts(case), "args": args, "census": census(lab, obs.features)[0]})
+    for i in range(1 if tier == "quick" else 25):
+        case = RB.gen_case(rng, gen={"outcomes": [o for o in OUTCOMES if o not in ("ki",)], "p_nonpass": 0.35, "max_features": 2}, p_stop=0.1, p_dry=0.0)
+        subprocess_summary(mon, rng, case)
+
+
+def subprocess_summary(mon, rng, case):
+    """`python -m behave` with the reporters the Configuration builds itself (--junit on / off): the summary printed at the end
+    counts the scenarios under the statuses the reference model gives them."""
+    import re
+    from ..lab.subproc import Project
+    from ..ref import runmodel
+    pred = runmodel.predict(case["program"], case["cfg"])
+    if pred.aborted or any(len(v) != 1 for v in pred.scen_status.values()):
+        return
+    junit = rng.random() < 0.6
+    extra = ["--junit", "--junit-directory", "reports-junit"] if junit else []
+    how = "command_line" if junit else "off"
+    proj = Project(case["program"], {})
+    try:
+        if junit and rng.random() < 0.4:
+            with open(os.path.join(proj.root, "behave.ini"), "w") as fh:
+                fh.write("[behave]\njunit = true\njunit_directory = reports-junit\n")
+            extra, how = [], "configuration_file"
+        res = proj.run(case["args"] + extra + ["-f", "progress"])
+    finally:
+        proj.close()
+    if res.get("timeout"):
+        mon.note("subprocess watchdog fired (inconclusive case)")
+        return
+    want = {}
+    for v in pred.scen_status.values():
+        st = next(iter(v))
+        want[st] = want.get(st, 0) + 1
+    got = None
+    for line in res["stdout"].splitlines():
+        if re.match(r"^\d+ scenarios? passed", line):
+            got = {name: int(n) for n, name in re.findall(r"(\d+) (?:scenarios? )?(\w+)", line) if int(n)}
+    mon.case(("sub-summary", RB.strip_case(case), how), True)
+    mon.seen("junit_reporting", how)
+    mon.check("process.summary_counts_scenarios_as_the_model", got == want,
+              lambda: RB.witness(case, junit=how, got=got, want=want, stdout=res["stdout"][-600:], stderr=res["stderr"][-300:]))
 
 
 def replay(case, mon):
